@@ -106,6 +106,18 @@ Theorem c19_clear_any_state :
 Proof. exact clear_any_state. Qed.
 Print Assumptions c19_clear_any_state.
 
+(* a rotation that cannot be done (first remove/rename raising): the write is
+   kept, nothing is raised, the handler stays open on the file at the path *)
+Theorem c19_blocked_write_kept :
+  forall f h msg ino,
+    h_stream h = Some ino -> get (names f) 0 = Some ino -> h_append h = true ->
+    exists f' h',
+      step (Ok f h) (WriteBlocked msg) = Ok f' h' /\
+      h_stream h' = Some ino /\ get (names f') 0 = Some ino /\
+      content f' ino = content f ino ++ msg.
+Proof. exact blocked_write_kept. Qed.
+Print Assumptions c19_blocked_write_kept.
+
 (* the configured maxbytes / backups are the handler's, 0 included: backups = 0
    stays 0 and maxbytes = 0 selects the plain FileHandler *)
 Theorem c19_config_params :
